@@ -63,9 +63,42 @@ pub trait DrainDyn<T> {
     fn size_hint(&self) -> (usize, Option<usize>);
     fn debug_string(&self) -> String;
     fn forget(self: Box<Self>);
+    fn nth(&mut self, k: usize) -> Option<T>;
+    fn nth_back(&mut self, k: usize) -> Option<T>;
+    fn count_rest(self: Box<Self>) -> usize;
+    fn last_rest(self: Box<Self>) -> Option<T>;
+    fn collect_rest(self: Box<Self>) -> Vec<T>;
+    fn rev_collect_rest(self: Box<Self>) -> Vec<T>;
+    /// `skip(k).collect()` resp. `step_by(k + 1).collect()`
+    fn skip_collect(self: Box<Self>, k: usize) -> Vec<T>;
+    fn step_by_collect(self: Box<Self>, k: usize) -> Vec<T>;
 }
 
 impl<const N: usize, T: Debug> DrainDyn<T> for Drain<'_, N, T> {
+    fn nth(&mut self, k: usize) -> Option<T> {
+        Iterator::nth(self, k)
+    }
+    fn nth_back(&mut self, k: usize) -> Option<T> {
+        DoubleEndedIterator::nth_back(self, k)
+    }
+    fn count_rest(self: Box<Self>) -> usize {
+        (*self).count()
+    }
+    fn last_rest(self: Box<Self>) -> Option<T> {
+        (*self).last()
+    }
+    fn collect_rest(self: Box<Self>) -> Vec<T> {
+        (*self).collect()
+    }
+    fn rev_collect_rest(self: Box<Self>) -> Vec<T> {
+        (*self).rev().collect()
+    }
+    fn skip_collect(self: Box<Self>, k: usize) -> Vec<T> {
+        (*self).skip(k).collect()
+    }
+    fn step_by_collect(self: Box<Self>, k: usize) -> Vec<T> {
+        (*self).step_by(k + 1).collect()
+    }
     fn next(&mut self) -> Option<T> {
         Iterator::next(self)
     }
